@@ -132,9 +132,16 @@ var fioNumTokens = []string{"0", "-0", "+0", "00", "1", "-1", "+1", "0x10", "0X1
 	"1e", "e1", "infinity", "nan", "-nan", "0x1.8p1", "1_0e1_0", "0b1e1", "127", "128", "-128", "-129", "255", "256", "2", "3", "12a", "a", "0xg", "0_", "0__1", "1_2_3", "+0x1F", "-0b1", "0X_F",
 	"0.1e-2", "1E5", "1e+5", "\uff11\uff12", "1\u00a0", "\u00a01", "\u20001"}
 
+// colour and comma-list columns of BED12
+var fioListTokens = []string{"0", "1", "1,2", "1,2,3", "1,2,3,4", "1,2,3,4,5", "256,0,0", "255,255,255", "-1,0,0", ",,", "1,,3", ",", "0,0", "0,0,0", "00", "0x0",
+	"1,2,", ",1,2", "1,x", "3,4", "3,4,", "3,,4", "3", "", "1 ,2,3", "+1,2,3", "0x10,010,0b1", "1_0,2,3", "3,4,5", "9223372036854775808,1"}
+
 var fioStrandTokens = []string{"+", "-", ".", "", "++", "?", "x", "+-", " ", "0", "1"}
 
 func fioTok(g *hx.Gen) string {
+	if g.Chance(0.12) {
+		return fioListTokens[g.Intn(len(fioListTokens))]
+	}
 	switch g.Intn(6) {
 	case 0, 1, 2:
 		return fioNumTokens[g.Intn(len(fioNumTokens))]
@@ -318,6 +325,13 @@ func c03FeatGen(g *hx.Gen) {
 		b[5] = t
 		g.Casef("bedr 6 %s", hx.Hex([]byte(strings.Join(b[:6], "\t")+"\n")))
 		g.Casef("bedr 12 %s", hx.Hex([]byte(strings.Join(b, "\t")+"\n")))
+	}
+	for _, t := range fioListTokens {
+		for _, col := range []int{8, 9, 10, 11} {
+			f := append([]string{}, validBed[:12]...)
+			f[col] = t
+			g.Casef("bedr 12 %s", hx.Hex([]byte(strings.Join(f, "\t")+"\n")))
+		}
 	}
 	for _, s := range fioSpaceRunes {
 		g.Casef("gffr %s", hx.Hex([]byte(s+strings.Join(validGff[:9], "\t")+s+"\n")))
